@@ -495,6 +495,26 @@ func getFuncKindAndReceiver(funcDecl *ast.FuncDecl) (TestOnlyKind, string) {
 	return TestOnlyOnFunc, ""
 }
 
+// ReceiverTypeName returns the name of the defined type a method declaration belongs to
+// ("" for a function). The receiver may be written through a type alias
+// (type A = T; func (a *A) M()): with type information the method is attributed to T,
+// the type its callers see; without it the spelling of the receiver is used.
+func ReceiverTypeName(info *types.Info, funcDecl *ast.FuncDecl) string {
+	if funcDecl.Recv == nil || len(funcDecl.Recv.List) == 0 {
+		return ""
+	}
+	if info != nil {
+		if fn, ok := info.Defs[funcDecl.Name].(*types.Func); ok {
+			if sig, ok := fn.Type().(*types.Signature); ok && sig.Recv() != nil {
+				if name := util.ExtractTypeName(sig.Recv().Type()); name != "" {
+					return name
+				}
+			}
+		}
+	}
+	return ExtractReceiverType(funcDecl.Recv.List[0].Type)
+}
+
 // ExtractReceiverType extracts the receiver type name from a receiver type expression
 // Examples: *MyStruct -> MyStruct, MyStruct -> MyStruct
 func ExtractReceiverType(expr ast.Expr) string {
@@ -642,7 +662,8 @@ func ReadAllAnnotations(
 			pos := funcDecl.Pos()
 
 			// Determine if it's a method or function
-			kind, receiverType := getFuncKindAndReceiver(funcDecl)
+			kind, _ := getFuncKindAndReceiver(funcDecl)
+			receiverType := ReceiverTypeName(pass.TypesInfo, funcDecl)
 
 			for _, comment := range funcDecl.Doc.List {
 				text := comment.Text
